@@ -207,6 +207,35 @@ def run(chk: common.Check):
             return {"x": r.x, "y": r.y, "z": r.z}
         genval.validate(chk, "VecGen", "rotate_vector_around_an_axis", real_rot, ins)
 
+    # ---------------------------------------------------------------- correspondence: Group.set_center ~ model/Centre.v in binary64, bit for bit
+    cdis = []
+    if proved:
+        import propka.atom
+        import propka.group
+        molc, _ = structures.run(structures.read("3SGB-subset.pdb"))
+        heavy_c = [a for a in molc.conformations[molc.conformation_names[0]].atoms if a.element != "H"]
+        lists = [rng.sample(heavy_c, rng.choice([1, 1, 2, 3, 5, 6, 9])) for _ in range(120 if chk.thorough else 40)] + [[]]
+        fx = genval.fhex
+        exprs, want = [], []
+        for al in lists:
+            g = propka.group.Group(propka.atom.Atom())
+            try:
+                g.set_center(al)
+                want.append([g.x, g.y, g.z])
+            except ValueError:
+                want.append(None)
+            pts = "; ".join(f"mk_vec3 {fx(a.x)} {fx(a.y)} {fx(a.z)}" for a in al)
+            exprs.append(f"match @set_center float NumFl [{pts}] with Some c => [fout (vec3_x c); fout (vec3_y c); fout (vec3_z c)] | None => [] end")
+        pre = "From Coq Require Import List ZArith PrimFloat.\nFrom V Require Import Num FloatIO VecGen Centre.\nImport ListNotations.\nOpen Scope float_scope.\n"
+        res = common.coq_eval("c04c", pre, exprs, shard=100)
+        for al, w, r in zip(lists, want, res):
+            got = None if not r else [genval.decode_fout(t) for t in r]
+            same = (got is None and w is None) or (got is not None and w is not None and all(genval.bits(a) == genval.bits(float(b)) for a, b in zip(got, w)))
+            if not same:
+                cdis.append({"atoms": [(a.x, a.y, a.z) for a in al], "impl": w, "model": got})
+        chk.corr_stats["Group.set_center ~ model/Centre.v (binary64)"] = {"atom_lists": len(lists), "disagreements": len(cdis)}
+        chk.cov["traces_validated_against_impl"] += len(lists)
+
     found = []
     rots = structures.rotations24()
     # ---------------------------------------------------------------- (1) bond perception under sliding, disulfide along an axis
@@ -389,15 +418,15 @@ def run(chk: common.Check):
     gv = getattr(chk, "_genval_dis", [])
     if missing or not proved:
         chk.broken("proof", "props/C04.v" if not missing else f"translation of {missing[0][1]}", chk.broken_obligation, search_fn=lambda: found)
-    elif gv:
-        chk.broken("correspondence", "generated model ~ implementation", {"genval": gv[:3]}, search_fn=lambda: found)
+    elif gv or cdis:
+        chk.broken("correspondence", "generated model ~ implementation; model/Centre.v ~ Group.set_center", {"genval": gv[:3], "set_center": cdis[:3]}, search_fn=lambda: found)
     else:
         for sig, what, rep in found:
             chk.finding(sig, what, rep)
     return chk.finish(
         level="proof",
         rule=("obligations = theorems of coq/props/C04.v (all proper orthogonal matrices, all translations, all atom lists). Tie: regenerated "
-              "kernels validated bit for bit; bonds model = C11's (validated by C11's trace correspondence). Search: bond perception under 0.01 A "
+              "kernels validated bit for bit; bonds model = C11's (validated by C11's trace correspondence); Group.set_center vs model/Centre.v in binary64. Search: bond perception under 0.01 A "
               "slides with a disulfide along each axis; full runs under grid translations (incl. +9000 A) x axis-permuting rotations: heavy-atom "
               "quantities (bonds, groups, desolvation, buried, bridges) incl. hetero groups, all pKa/determinants with supplied hydrogens "
               f"(tol {TOL_EXACT}) and with built hydrogens (tol {PKA_TOL_BUILT}), incl. a guanidinium plane exactly perpendicular to an axis. "
